@@ -1,4 +1,5 @@
 import Amqp.Typed
+import Amqp.Message
 import Driver.Codec
 
 /-! line protocol of the typed layer: `G <cmd> …` -/
@@ -57,8 +58,65 @@ def parseTy (s : String) : Option FTy :=
 def showKind : FKind → String
   | .required => "req" | .optional => "opt" | .dflt => "dflt" | .multiple => "mul"
 
+/-! messages: seven words — header, delivery-annotations, message-annotations, properties,
+    application-properties, body, footer; `-` = absent; body `v<value>` | `d<hex>,<hex>…` (`.` = empty) |
+    `s<value: list of lists>` | `e` -/
+
+open Amqp.Message in
+def showBody : Body → String
+  | .value v => "v" ++ Driver.Codec.showValue v
+  | .data bs => "d" ++ ",".intercalate (bs.map (fun b => if b.isEmpty then "." else Driver.Codec.hexs b))
+  | .sequence ls => "s" ++ Driver.Codec.showValue (.list (ls.map .list))
+  | .empty => "e"
+
+open Amqp.Message in
+def showMsg (m : Msg) : String :=
+  let ot : Option TV → String := fun x => match x with | none => "-" | some a => showTV a
+  let ov : Option Value → String := fun x => match x with | none => "-" | some a => Driver.Codec.showValue a
+  " ".intercalate [ot m.header, ov m.deliveryAnn, ov m.msgAnn, ot m.properties, ov m.appProps, showBody m.body,
+    ov m.footer]
+
+def parseOptTV (s : String) : Option (Option TV) :=
+  if s == "-" then some none else (parseTV s.toList).map (fun (t, _) => some t)
+
+def parseOptValue (s : String) : Option (Option Value) :=
+  if s == "-" then some none else (Driver.Codec.parseValue s.toList).map (fun (v, _) => some v)
+
+open Amqp.Message in
+def parseBody (s : String) : Option Body :=
+  match s.toList with
+  | 'e' :: [] => some .empty
+  | 'v' :: r => (Driver.Codec.parseValue r).map (fun (v, _) => .value v)
+  | 'd' :: r =>
+    ((String.ofList r).splitOn ",").mapM (fun h => if h == "." then some [] else Driver.Frame.unhex h) |>.map .data
+  | 's' :: r =>
+    match Driver.Codec.parseValue r with
+    | some (Value.list ls, _) =>
+      (ls.mapM (fun (l : Value) => match l with | Value.list vs => some vs | _ => none)).map Body.sequence
+    | _ => none
+  | _ => none
+
+open Amqp.Message in
+def parseMsg (ws : List String) : Option Msg :=
+  match ws with
+  | [h, da, ma, p, ap, b, f] => do
+    some { header := (← parseOptTV h), deliveryAnn := (← parseOptValue da), msgAnn := (← parseOptValue ma),
+           properties := (← parseOptTV p), appProps := (← parseOptValue ap), body := (← parseBody b),
+           footer := (← parseOptValue f) }
+  | _ => none
+
 def step (ws : List String) : Option String :=
   match ws with
+  | "msg" :: rest => do
+    let m ← parseMsg rest
+    match Amqp.Message.encodeMsg env m with
+    | some bs => some (if bs.isEmpty then "-" else Driver.Codec.hexs bs)
+    | none => some "ERR"
+  | ["mdec", h] => do
+    let bs ← Driver.Frame.unhex h
+    match Amqp.Message.decodeMsg env bs with
+    | .ok m => some ("OK " ++ showMsg m)
+    | .error e => some s!"ERR {Driver.Codec.showErr e}"
   | ["enc", t] => do
     let (tv, _) ← parseTV t.toList
     match encodeTyped env tv with
